@@ -553,6 +553,78 @@ fn main() {
                 }
             }
         },
+        "wc" => {
+            // flush while OTHER threads keep the filesystem busy: every thread writes its own file through a handle, flushes and
+            // reads it back at once - what was written so far must be there (C07 "visible at each flush"), however contended the
+            // instance is
+            use std::sync::atomic::{AtomicBool, Ordering};
+            use std::sync::Arc;
+            let rounds = if thorough { 12 } else { 4 };
+            for round in 0..rounds {
+                if !mine(&mut id) {
+                    continue;
+                }
+                prog.mark(id, &format!("wc round {}", round));
+                let vfs = Arc::new(Memfs::new());
+                let _ = vfs.mkdir_p("/noise/a/b");
+                let _ = vfs.write_all("/noise/big", vec![b'x'; 1 << 16]);
+                let stop = Arc::new(AtomicBool::new(false));
+                let mut noise = vec![];
+                for n in 0..3 {
+                    let (v, st) = (vfs.clone(), stop.clone());
+                    noise.push(std::thread::spawn(move || {
+                        while !st.load(Ordering::SeqCst) {
+                            match n {
+                                0 => drop(v.all_paths("/")),
+                                1 => drop(v.read_all("/noise/big")),
+                                _ => drop(v.write_all("/noise/w", "y")),
+                            }
+                        }
+                    }));
+                }
+                let mut writers = vec![];
+                for t in 0..4 {
+                    let v = vfs.clone();
+                    writers.push(std::thread::spawn(move || {
+                        let mut pairs: Vec<Value> = vec![];
+                        let path = format!("/t{}", t);
+                        for k in 0..60u32 {
+                            let r = guard(|| -> Option<(Vec<u8>, Vec<u8>)> {
+                                let mut h = v.write(&path).ok()?;
+                                let mut written = vec![];
+                                for part in 0..3u8 {
+                                    let d = vec![b'a' + (t as u8), (k % 251) as u8, part];
+                                    h.write_all(&d).ok()?;
+                                    written.extend_from_slice(&d);
+                                    h.flush().ok()?;
+                                    let mut seen = vec![];
+                                    v.read(&path).ok()?.read_to_end(&mut seen).ok()?;
+                                    if seen != written {
+                                        return Some((written, seen));
+                                    }
+                                }
+                                None
+                            });
+                            match r {
+                                Ok(None) => pairs.push(json!({"ok": "t", "w": [], "s": []})),
+                                Ok(Some((w, s))) => pairs.push(json!({"ok": "f", "w": bytes(&w), "s": bytes(&s)})),
+                                Err(_) => pairs.push(json!({"ok": "panic", "w": [], "s": []})),
+                            }
+                        }
+                        pairs
+                    }));
+                }
+                let mut all: Vec<Value> = vec![];
+                for w in writers {
+                    all.extend(w.join().unwrap_or_default());
+                }
+                stop.store(true, Ordering::SeqCst);
+                for n in noise {
+                    let _ = n.join();
+                }
+                out.rec(&json!({"k": "wc", "be": "memfs", "round": round, "pairs": all}));
+            }
+        },
         "w2" => {
             let seqs = all_w2seqs(if thorough { 6 } else { 4 });
             for base in [vec![], vec![0x62u8]] {
